@@ -1,4 +1,30 @@
 from props.client_props import gen_c03
-PROP = {"id": "C03", "stages": [{"name": "client", "target": "h_client", "gen": gen_c03, "shard": 12}], "trivial_tags": [],
+
+from props.e2egen import *
+from props.e2egen import line as eline
+
+def gen_e2e(ctx):
+    """downloads and listings over real sockets, plain and TLS 1.2 / 1.3: here the completion reply really is on the wire
+    before / while the data arrives (the scripted server sends 150 and 226 at once and only then starts the data)"""
+    rng = ctx["rng"]
+    for ver in (13, 12):
+        for tls in (1, 0):
+            for mode in "pa":
+                for rfc in (0, 1):
+                    for t in ("I", "A"):
+                        c = cfg_str(mode=mode, rfc=rfc, ttype=t, ver=ver, tls=tls, prop="C03", resume=rng.below(2))
+                        ops = [connect(tls=bool(tls))]
+                        for size in (0, 1, 8192, 8193, 24593, 100000):
+                            if t == "A" and size > 9000: continue
+                            seed = rng.below(1000)
+                            pl = "g%d.%d" % (seed, size) if t == "I" else "h" + rng.bytes(size, alphabet=b"ab\r\n\r\nxyz ").hex()
+                            g = [setup(mode, rfc), ",".join([R(b"150 go"), R(b"226 done"), "Dsend:%s:%s:c" % (pl, rng.choice(["", "1460", "100.5000", "8192"]))])]
+                            ops.append("get:%s:ok:-@" % H(b"f.bin") + "/".join(g))
+                        ops.append(lst(mode, rfc))
+                        yield eline(c, ops)
+    ctx["scopes"].append("real-socket downloads (plain, TLS 1.2, TLS 1.3) x four methods x both types x sizes 0..100000 with the 226 sent before the data")
+
+PROP = {"id": "C03", "stages": [{"name": "client", "target": "h_client", "gen": gen_c03, "shard": 12},
+                   {"name": "e2e", "target": "h_e2e", "gen": gen_e2e, "shard": 4}], "trivial_tags": [],
         "rule": 'binary downloads and listings: payload sizes around the 8192-byte block x passive/active x EPSV-EPRT/PASV-PORT x IPv4/IPv6, random server write segmentation, plus random short histories; sink bytes (length + FNV-64, content when short), flush count and position compared with the payload the peer wrote. distinct = distinct scenario lines.',
         "assumptions": ["in-memory control transport (a socket_base subclass) stands in for the TCP control socket; data connections are real loopback TCP", "oracle values (read sizes, kernel-chosen ports, connect results) are taken from the implementation run"]}
